@@ -4,7 +4,9 @@ import vlib
 from props import arbgen, arbprop, C04
 
 PROP = "C05"
-PROPS_FILES = ["Nic/Props/C05.lean"]
+PROPS_FILES = ["Nic/Props/C05.lean", "Nic/Props/TieProblems.lean"]
+# Go functions translated from /repo on every run (tools/gofn) and proved equal to the model in the Tie file above
+TIE_FUNCS = ['internal/k8s/configuration.go:compareConfigurationProblems', 'internal/k8s/configuration.go:detectChangesInProblems']
 HARNESS = "vh-k8s"
 RULE = ("histories over all kinds (as C01/C04). After every event the harness drives the controller's real reporting functions "
         "(updateResourcesStatusAndEvents, Update*StatusAndEventsOnDelete, processProblems) with a recording EventRecorder on the returned "
@@ -21,7 +23,8 @@ LEVEL_TEXT = ("Lean 4 theorems over the arbitration + reporting model: the probl
               "validation error of the processed object is always reported in that event (attached to its Delete change or raised as a problem), "
               "a Delete change is silent only if it carries neither error nor warning, every AddOrUpdate change yields a positive report for the "
               "resource and its attached minions/routes. The accumulated-last-report statement over whole histories is decided by the direct "
-              "Spec check on the real reporting functions.")
+              "Spec check on the real reporting functions."
+              ' Source tie: compareConfigurationProblems and detectChangesInProblems — the accumulating loop with its continue, statement for statement — are translated from /repo on every run and proved equal to the model delta (Props/TieProblems.lean: compareConfigurationProblems_tie, detectChangesInProblems_tie).')
 LEVEL_NOTE = "Assurance = weaker of (theorems about the model, correspondence incl. the event stream, direct accumulated-report oracle on the real code)."
 TECHNIQUE = "Lean 4 proof (problem delta soundness, error always reported) + accumulated-report oracle and model/implementation correspondence"
 
